@@ -404,7 +404,11 @@ def parse (c : Cfg) (url0 : Str) : Except PyExc URLInfo :=
     | .error e => .error e
     | .ok s2 =>
       match netScheme? s2.1 with
-      | none => .ok { raw := url, scheme := s2.1, path := some s2.2 }
+      | none =>
+        -- nothing is percent-encoded, but a lone surrogate is refused: `url.encode('utf-8')`
+        match utf8Enc url with
+        | .error e => .error e
+        | .ok _ => .ok { raw := url, scheme := s2.1, path := some s2.2 }
       | some (s, dp) => parseNet c url s s2.2 dp
 
 /-! ### accessors -/
